@@ -18,15 +18,12 @@ import re
 from concurrent.futures import ThreadPoolExecutor
 from multiprocessing import Pool
 
-from .. import core
 from .. import tlc as T
 from .. import stl_build as SB
 from .. import stl_gen as G
 
 PID = "C09"
 LEVEL = "model_checking"
-
-FRAGMENT = os.path.join(core.VERIF, "findings_C09.json")
 
 TTI_INV = "InputWellFormed BufOnlyInExtension BeginLeEnd TtiFoldAgrees EveryTerminalCounted SetsPartition OpenIffSetContinues"
 TTI_PROP = "EmitOnlyOnTerminal NeverEmitWhileAccumulating SkippedLeaveNoTrace SetsGrowMonotonically ExtensionConcatenates"
@@ -243,29 +240,6 @@ def features_of(case, clause, tag, blk):
   return f
 
 
-def _apply_fragment(ctx):
-  """Known findings of this property that are not merged into known_findings.json yet are honoured from the fragment."""
-  if not os.path.exists(FRAGMENT):
-    return
-  merged = {e.get("id") for e in core.load_findings()}
-  with open(FRAGMENT) as fh:
-    entries = [e for e in json.load(fh).get("findings", []) if e.get("id") not in merged]
-  keep = []
-  hits = {}
-  for v in ctx.violations:
-    v2 = dict(v)
-    v2["pid"] = PID
-    hit = next((e for e in entries if core._match(e, v2)), None)
-    if hit is None:
-      keep.append(v)
-    else:
-      hits.setdefault(hit["id"], [hit, 0])[1] += 1
-  for fid, (e, n) in hits.items():
-    print(f"KNOWN-FINDING: property={PID} {e['id']}: {e['what']} ({n} case(s) this run)")
-    ctx.count("known_finding_" + fid, n)
-  ctx.violations = keep
-
-
 # ---------------------------------------------------------------------------------------------------------------
 
 def _validate(args):
@@ -402,7 +376,6 @@ def run(ctx):
              "upper halves of ISO 8859-5/6/7/8 are only required to yield exactly one character")
   ctx.assume("region geometry is judged for regular texts only (uniform height, CR/LF pairs in double height, none leading "
              "or trailing), VP inside the grid; bottom-anchored cumulative sets and JC of later set members are not judged")
-  _apply_fragment(ctx)
 
 
 def _terminal_block_of(case, ksub):
